@@ -14,7 +14,8 @@ CFG = {'long_max_vertices': 200,   # the exact oracle is quadratic in the vertex
                  'pop/sift_down_to_bottom) for the pinned toolchain; the proved theorems do not depend on which '
                  'minimal entry is popped first'],
  'count': {'quick': 150000, 'thorough': 5000000},
- 'lean_files': ['GeoModel/Simplify.lean', 'GeoModel/Ops/C09.lean', 'GeoProofs/Lemmas/C09Rdp.lean', 'GeoProofs/Lemmas/C09Vw.lean',
+ 'translator': True,
+ 'lean_files': ['GeoModel/TRANPrelude.lean', 'GeoModel/Gen/SimplifyGen.lean', 'GeoProofs/Lemmas/TRAN2Simplify.lean', 'GeoModel/Simplify.lean', 'GeoModel/Ops/C09.lean', 'GeoProofs/Lemmas/C09Rdp.lean', 'GeoProofs/Lemmas/C09Vw.lean',
                 'GeoProofs/Lemmas/C09PHeap.lean', 'GeoProofs/Lemmas/C09PExit.lean',
                 'GeoProofs/Lemmas/C09PExitP.lean', 'GeoProofs/Lemmas/C09XGlobal.lean',
                 'GeoProofs/Lemmas/C09XTrace.lean'],
@@ -24,7 +25,10 @@ CFG = {'long_max_vertices': 200,   # the exact oracle is quadratic in the vertex
          '{simplify+simplify_idx, simplify_vw+simplify_vw_idx, simplify_vw_preserve} x tolerance in {0, -0, '
          'negative, between attainable values, exactly attainable, larger than the geometry}; distinct by input '
          'text; cases whose largest component has <= 2 vertices are tagged triv and not counted',
- 'trusted_base': ['modelled, not verified: the f64 evaluation of distances/areas (exact regime + near-tie filter '
+ 'trusted_base': ['translator/rs2lean.py + rsexpr.py + jobs2.py for the fold closure of compute_rdp and impl Ord / PartialEq for VScore (explicit choices: a.partial_cmp(&b).unwrap() on numbers = the total three-way '
+                  'comparison, no NaN; Ordering::then = Ordering.then; exact rationals; the rest of the algorithm - recursion, while loops, '
+                  'heaps, sorting - is not regenerated)',
+                  'modelled, not verified: the f64 evaluation of distances/areas (exact regime + near-tie filter '
                   'instead of a floating-point proof)',
                   'rstar::RTree and std BinaryHeap internals are represented by their abstract behaviour '
                   '(multiset / mirrored sift operations)']}
@@ -38,7 +42,9 @@ MANIFEST = {'note': 'Trusted: Lean 4.33 kernel (axioms propext, Classical.choice
          'epsilon <= 0) and are listed in known_findings/C09.json with their witnesses in corpus/C09.ops.',
  'technique': 'Lean 4 proof (induction over the RDP recursion; loop invariants of the Visvalingam-Whyatt linked list) '
               '+ model/implementation correspondence on random line strings, rings and tolerances',
- 'text': 'Proved for the model, for every input and tolerance: the RDP output is a subsequence that keeps first and '
+ 'text': 'Translator tie (TRAN2, rdpSelection_eq_source): one step of the farthest-vertex fold of the model is the closure regenerated from compute_rdp '
+         '(>= : the last maximum wins) and VScore.le / lt are not-Greater / Less of the regenerated impl Ord for VScore (GeoModel/Gen/SimplifyGen.lean, read '
+         'off simplify.rs / simplify_vw.rs on this run). Proved for the model, for every input and tolerance: the RDP output is a subsequence that keeps first and '
          'last, every dropped vertex is within eps of the retained segment replacing it (Within), simplify_idx lists '
          'exactly the kept positions, eps <= 0 is the identity and the size guard never lets a ring fall below four '
          'coordinates; the Visvalingam-Whyatt outputs are subsequences keeping both ends, index and coordinate '
